@@ -112,11 +112,62 @@ PROPS["C15"] = {
                  "+ extracted mark_dirty table + differential correspondence of dirty flags",
 }
 
+PROPS["C13"] = {
+    "modules": ["TaffyVerif.Props.C13"],
+    "theorems": [
+        "C13.rounded_integral", "C13.rounded_integral_all", "C13.size_within_one", "C13.size_bound_attained",
+        "C13.unrounded_untouched", "C13.synced_after_enabled_pass", "C13.synced_after_first_pass", "C13.layout_of_synced",
+        "C13.rounding_idempotent", "C13.stale_until_next_pass",
+        "C13.edge_commutes", "C13.edge_commutes_nonneg", "C13.no_seam",
+        "C13.half_pixel_exclusion_necessary", "C13.integral_ancestors_necessary",
+        "C13.every_node_has_a_path",
+    ],
+    "harness": "C13", "driver": "C13", "monitor": True,
+    "rule": "real TaffyTrees of 1-12 nodes, depth <= 4, display flex/block/grid mixed, sizes/padding/border/margin/gap/inset from "
+            "dyadic pools (k/8, half pixels, negative offsets), integer pools, percentages, and a non-dyadic pool (0.49, 1.51, 0.1, 33.3, "
+            "2.4999, 0.5001; 10%, 33.3%, 90%); available space definite/min-/max-content; laid out by compute_layout. Request = every node's unrounded_layout, "
+            "answer = every node's layout() (all 21 Layout fields, bit-exact, no -0.0 canonicalisation). Half of the cases continue "
+            "with a history of repeated passes (same or different available space), mark_dirty, enable_rounding/disable_rounding, "
+            "layout()/unrounded_layout() reads. Implementation-side oracle: a twin tree on which rounding never runs receives the same "
+            "passes; its layout must be bit-identical to the unrounded layout (rounding feeds nothing back); the same unrounded layout is "
+            "always rounded to the same result; toggles leave unrounded_layout untouched. Fixed witnesses first, each with the Lean witness theorem's "
+            "statement asserted on the implementation (bound 1 attained, half-pixel seam, fractional ancestor, an f32-only case where "
+            "cumulative + location rounds onto a half pixel, enable without a pass). Non-trivial = a rounded pass over a tree with a non-zero "
+            "layout; distinct = distinct transcripts.",
+    "trusted_base": [
+        "model of round_layout / round_layout_inner / round_content_size (src/compute/mod.rs, default features) and of the "
+        "rounding-related state of TaffyTree (use_rounding, unrounded_layout, final_layout, layout(), enable/disable_rounding, "
+        "compute_layout_with_measure) is hand-written (Model/Round.lean); tied to the code by bit-exact comparison of whole trees",
+        "the layout pass is an oracle in the state machine (Op.compute u): that compute_root_layout writes unrounded_layout only "
+        "through set_unrounded_layout and never touches final_layout is read off taffy_tree.rs and checked by the twin-tree oracle",
+        "theorems are over exact rationals; Lean Float32 +,-,round are assumed to be IEEE binary32 / C roundf as Rust's f32",
+    ],
+    "assumptions": [
+        "f32: cumulative + extent is itself rounded to f32, so on the implementation edge_commutes is evaluated exactly when every "
+        "number of the tree is a small dyadic (|v| < 4096, <= 10 fractional bits: all additions exact) and otherwise with a relative "
+        "tolerance of 2^-18 on the edge, applied to the conclusion and to the half-pixel hypothesis alike (a near edge within the "
+        "tolerance of a half pixel counts as on it: witness fixed:f32-near-edge-rounds-onto-half-pixel)",
+        "repeated passes are compared for equal unrounded layouts; determinism of the layout pass itself is C01's subject",
+    ],
+    "level_text": "For every tree of unrounded layouts (any shape, depth, values) round_layout produces integral location, size, "
+                  "content size, scrollbar size, border and padding; each extent within one pixel of the unrounded one (bound attained "
+                  "at x = -1/2, width 1), location/scrollbar within half a pixel; order and margin copied. The unrounded layout is never "
+                  "written by rounding or toggles; after any history of identical passes and toggles layout() is the unrounded tree or "
+                  "its rounding according to the flag. Under integral ancestors and a near edge off the half pixels, absolute rounded "
+                  "near and far edges equal round(absolute unrounded edge), hence touching boxes keep touching; both hypotheses are "
+                  "shown necessary by witnesses replayed on the implementation; for non-negative coordinates the half-pixel exclusion is "
+                  "proved unnecessary.",
+    "level_note": "Trusted: Lean kernel; hand-written model (validated by the bit-exact correspondence run at Float32); no theorem "
+                  "relates Float32 to Rat arithmetic. Caveat recorded as a theorem: enable_rounding() does not round, so layout() is "
+                  "stale until the next pass (stale_until_next_pass). Axioms: propext, Classical.choice, Quot.sound.",
+    "technique": "Lean 4 proofs over exact rationals about a transliterated round_layout + differential correspondence on real TaffyTrees",
+}
+
 HOOK_COMMITS = [
     "5207efe",
 ]
 
 _pending = "check not built yet in this revision of /verif (planned, see DESIGN.md §8)"
 NOT_APPLICABLE = {p: _pending for p in
-                  ["C01", "C03", "C04", "C05", "C06", "C07", "C08", "C09", "C10", "C11", "C12", "C13", "C14", "C16", "C17", "C19"]}
+                  ["C01", "C03", "C04", "C05", "C06", "C07", "C08", "C09", "C10", "C11", "C12", "C14", "C16", "C17", "C19"]}
 
